@@ -25,6 +25,8 @@ if git -C /repo apply --check $OUT/patch.diff; then
   (cd /repo && go build ./... 2>&1 | tail -3)
   (cd /verif && timeout 1500 ./check $P 2>&1 | cut -c1-400 | tee /verif/seeded/$N/check_quick.txt)
   git -C /repo checkout -q -- .
+  # the run above overwrote evidence/$P.json with the record of a PATCHED tree: rewrite it from the clean tree
+  (cd /verif && ./check $P >/dev/null 2>&1; echo "   clean-tree re-run of $P: rc=$?")
   R=$(grep -o 'replay=[^ ]*' /verif/seeded/$N/check_quick.txt | head -1 | cut -d= -f2)
   [ -n "$R" ] && python3 -c "
 import json,sys
